@@ -667,3 +667,39 @@ def s8_archetype_claims(prog):
     if not n_some or not n_none:
         once('shape', None, 'expected both Some and None results (found %d / %d)' % (n_some, n_none))
     return r
+
+
+@rule('S9', props=['C09', 'C07', 'C15'], floor=4, configs=('all',))
+def s9_every_run_reaches_the_system(prog):
+    """`World::run_system`, `World::run_par_system` and `Task::run` of `task::System` / `task::ParSystem` call the
+    user's `System::run` / `ParSystem::run` exactly once on every returning path, with the query result of that
+    world: a system also owns state and resource views, so skipping it (say, for an empty world) makes the parallel
+    variant differ from the sequential one and a schedule differ from running its tasks in order."""
+    r = Result()
+    targets = []
+    for f in prog.fns.values():
+        if f.kind == 'Closure':
+            continue
+        if f.path.startswith('world::World::<Registry, Resources>::') and f.name in ('run_system', 'run_par_system'):
+            targets.append((f, 'World::' + f.name))
+        elif f.name == 'run' and f.impl and f.impl['trait'] and f.impl['trait']['path'].endswith('system::schedule::task::sealed::Task'):
+            targets.append((f, 'Task::run for %s' % ty_str(f.impl['self'])))
+    for f, key in targets:
+        r.inst(key)
+        E = pathsem.analyse(prog, f)
+        rets = [p for p in E.paths if p.ended == 'return']
+        if E.truncated or not rets:
+            r.viol('S9', key + '/not-analysable', f.loc(), 'path enumeration cut off')
+            continue
+        for p in rets:
+            runs = p.calls(lambda e: e['name'] == 'run' and (e['path'].startswith('system::System::') or e['path'].startswith('system::par::ParSystem::') or e['path'].startswith('system::ParSystem::')
+                                                               or (e['f'].get('trait') or '').endswith(('system::System', 'system::par::ParSystem', 'system::ParSystem'))))
+            if len(runs) != 1:
+                r.viol('S9', key + ('/system-not-run' if not runs else '/system-run-twice'), f.loc(),
+                       'a path through %s returns %s: the system\'s own state and its resource views are then out of step with the sequential run' % (key, 'without running the system' if not runs else 'after running the system %d times' % len(runs)))
+                break
+            qs = p.calls(lambda e: e['name'] in ('query', 'par_query') and e['i'] < runs[0]['i'])
+            if not qs or not any(pathsem.mentions(a_, lambda t: t == qs[-1]['ret']) for a_ in runs[0]['args']):
+                r.viol('S9', key + '/not-the-query-result', f.loc(runs[0]['ln']), 'the system is not run on the result of querying this world')
+                break
+    return r
